@@ -386,3 +386,41 @@ void h_ws_version(void)
 	VERIF_COVER(major == 0 && minor == 9 && r == -1, "HTTP/0.9 refused");
 	VERIF_COVER(major == 1 && minor == 1 && r == 0, "HTTP/1.1 accepted");
 }
+
+/* ---- ext.offer: parsing of a Sec-WebSocket-Extensions value (properties C19, C06) -----------------------------
+ * BOUNDED: header values of at most EXT_MAX bytes, every content.  The value is an exact-size heap object, so any
+ * read outside [at, at+length) is a pointer-check failure; the response buffer is the real 129-byte allocation. */
+#ifndef EXT_MAX
+#define EXT_MAX 48
+#endif
+int isspace(int c) { return c == ' ' || (c >= '\t' && c <= '\r'); }
+void alloc_compression(struct websocket *ws);
+void h_ext_offer(void)
+{
+	struct websocket s;
+	arbitrary_ws(&s, true);
+	s.extension_compression.name = "permessage-deflate";
+	s.extension_compression.compression_level = nondet_uint();
+	__CPROVER_assume(s.extension_compression.compression_level <= 3);
+	s.extension_compression.client_max_window_bits = nondet_bool() ? 15 : 8;
+	s.extension_compression.server_max_window_bits = nondet_bool() ? 15 : 9;
+	s.extension_compression.client_no_context_takeover = nondet_bool();
+	s.extension_compression.server_no_context_takeover = nondet_bool();
+	unsigned cmax0 = s.extension_compression.client_max_window_bits, smax0 = s.extension_compression.server_max_window_bits;
+	size_t length = nondet_size();
+	__CPROVER_assume(length >= 1 && length <= EXT_MAX);
+	char *value = malloc(length);
+	__CPROVER_assume(value != NULL);
+	check_websocket_extensions(&s, value, length);
+	if (s.extension_compression.accepted) {
+		__CPROVER_assert(s.extension_compression.response != NULL && strlen(s.extension_compression.response) <= 128, "C19.ext.response-fits-its-buffer");
+		__CPROVER_assert(s.extension_compression.client_max_window_bits >= 8 && s.extension_compression.client_max_window_bits <= 15 &&
+			s.extension_compression.server_max_window_bits >= 9 && s.extension_compression.server_max_window_bits <= 15, "C19.ext.negotiated-window-bits-in-the-legal-range");
+		__CPROVER_assert(s.extension_compression.server_max_window_bits <= smax0, "C19.ext.server-window-never-larger-than-configured");
+		(void)cmax0;
+		free(s.extension_compression.response);
+	}
+	free(value);
+	VERIF_COVER(s.extension_compression.accepted && length == 18, "bare permessage-deflate accepted");
+	VERIF_COVER(!s.extension_compression.accepted && length > 20, "offer refused");
+}
